@@ -41,3 +41,28 @@ for _mname, _ent in sorted(_ci.methods.items()):
         may_raise=['AnyException', 'TypeError', 'ValueError'],
         ensures=_ens)
 OPQ_MODELS = {'item': {'__isinstance__': {}}}
+
+# add_origin: same forwarding obligations, plus FILE-ID = the header id and the origin reference = explicit one or the next free one
+_fn = _ci.methods['add_origin']['plain']
+_params = [a.arg for a in _fn.args.args[1:]]
+_pspec = {p: 'opq:uval' for p in _params}
+_pspec.update({'name': 'str', 'set_name': 'none', 'origin_reference': 'int?'})
+_ORG = {'cls': 'OriginItem', 'fields': {'name': 'str', '_origin_reference': 'int'}}
+_ens = [('name-forwarded', "stub_call_init['name'] == name"),
+        ('file-id-of-the-origin-is-the-header-id', "stub_call_init['kwargs']['file_id'] == self.file_header_item.header_id"),
+        ('origin-reference-explicit-else-next-free', "stub_call_init['origin_reference'] == (origin_reference if origin_reference else stub_result_next_available_origin_ref)")]
+for p in _params:
+    if p in NOT_FORWARDED:
+        continue
+    _ens.append((f'{p}-reaches-the-constructor-as-{p}', f"stub_call_init['kwargs']['{p}'] is {p}"))
+CONTRACTS['LogicalFile.add_origin[forwarding]'] = dict(
+    target='LogicalFile.add_origin', props=['C05', 'C09', 'C07'],
+    self_fields={'physical_file': {'cls': 'DLISFile', 'fields': {'_eflr_sets': {'cls': 'EFLRSetsDict', 'fields': {}}}},
+                 '_eflr_sets': {'cls': 'EFLRSetsDict', 'fields': {'origins_value': {'list': [_ORG, _ORG]}}},
+                 'file_header_item': {'cls': 'FileHeaderItem', 'fields': {'header_id': 'str'}}},
+    params=_pspec, returns='opq:item',
+    stubs={'get_or_make_set': dict(returns='opq:eflrset', pure=True), 'try_add_set': dict(returns='bool'),
+           'get_all_items_for_set_type': dict(returns_expr_on_receiver='origins_value'),
+           'next_available_origin_ref': dict(returns='int', raises=True, pure=True),
+           '__init__': dict(returns='none', raises=True, capture=True)},
+    may_raise=['AnyException', 'StubException'], ensures=_ens)
